@@ -3,6 +3,8 @@
   and the MetricDefinitions tables regenerated from the current source.
 -/
 import RaftWal.Generated.Metrics
+import RaftWal.Proofs.WalInv2
+import RaftWal.Proofs.WalInv2Counter
 namespace RaftWal.C20
 open RaftWal.Generated
 
@@ -38,5 +40,22 @@ theorem verifier_sites_as_modelled :
     (metricSites.filter (fun s => s.1 = "verifier")).map (fun s => (s.2.1, s.2.2.2.1)) =
     [("StoreLogs", "checkpoints_written"), ("triggerVerify", "dropped_reports"), ("runVerifier", "ranges_verified"),
      ("verify", "write_checksum_failures"), ("verify", "read_checksum_failures")] := by decide
+
+/-- **counters_exact**: after any run of log and StableStore calls the WAL's counters equal the true totals computed
+    from the reference log alone — calls, entries and encoded bytes appended, reads and bytes read, stable gets and
+    sets, and head/tail truncation counts equal to the number of entries actually removed (as long as fewer than
+    2^64 entries were removed at each end: the counters are uint64) -/
+theorem counters_exact (cfg : WalCfg) (hcfg : cfg.newSegCodec = cfg.codecId) (w0 : Wal) (h0 : Wal.init cfg = some w0)
+    (ops : List XOp) (hops : ∀ op ∈ ops, op.inRange)
+    (hhead : (specTotals ops).2.head < 2^64) (htail : (specTotals ops).2.tail < 2^64) :
+    (w0.xrunState ops).ctr.totals = (specTotals ops).2 :=
+  RaftWal.counters_exact cfg hcfg w0 h0 ops hops hhead htail
+
+/-- unconditional form: the truncation counters equal the true totals modulo 2^64 -/
+theorem counters_exact_mod (cfg : WalCfg) (hcfg : cfg.newSegCodec = cfg.codecId) (w0 : Wal) (h0 : Wal.init cfg = some w0)
+    (ops : List XOp) (hops : ∀ op ∈ ops, op.inRange) :
+    (w0.xrunState ops).ctr.totals =
+      { (specTotals ops).2 with head := u64 (specTotals ops).2.head, tail := u64 (specTotals ops).2.tail } :=
+  RaftWal.counters_exact_mod cfg hcfg w0 h0 ops hops
 
 end RaftWal.C20
